@@ -7,7 +7,7 @@
 //! `HashMap`s; bytes of two writes are never compared).
 
 use gcram::{
-    io::{DATA_SERIES, Enc, Target, WriteCfg, read_cram, write_cram},
+    io::{DATA_SERIES, Enc, OpOutcome, REJECTS, Target, WriteCfg, WriteOp, read_cram, write_cram, write_cram_ops},
     rec,
     refs::{self, RefSeq},
     stream::{self, BASE_STREAMS, DevSet},
@@ -399,6 +399,127 @@ fn run_case_brief(ch: &Chooser, env: &Env, st: &stream::Stream, cfg: &WriteCfg, 
     }
 }
 
+/// Harness D (G2): writer state after a refused record. On ONE writer instance the accepted records
+/// of a base stream are interleaved with records the writer must refuse; every refusal must be an
+/// `Err`, every other write `Ok`, and the finished file must read back to exactly the accepted
+/// records and pass the walker (record counters, base counts, contexts).
+fn body_rejects(ch: &Chooser, env: &Env, streams: &[usize]) -> Outcome {
+    let which = *ch.pick_free("stream", streams);
+    let layout = *ch.pick_free("layout", &[Some(1), Some(2), None, Some(3)]);
+    let kind = *ch.pick_free("reject", &REJECTS);
+    let preserve = *ch.pick_free("preserve_read_names", &[true, false]);
+    let st = stream::finalise(stream::base_stream(which), &env.refs);
+    let n = st.recs.len();
+    // where the refused records go: before record i (i = n: after the last); one or two places
+    let first = ch.free("reject_before", n + 1);
+    let second = ch.free("second_reject_before", n + 2); // 0 = none
+    let mut ops: Vec<WriteOp> = Vec::new();
+    for (i, r) in st.recs.iter().enumerate() {
+        if i == first {
+            ops.push(WriteOp::Reject(kind));
+        }
+        if second != 0 && i == second - 1 {
+            ops.push(WriteOp::Reject(kind));
+        }
+        ops.push(WriteOp::Accept(r.clone()));
+    }
+    if first == n {
+        ops.push(WriteOp::Reject(kind));
+    }
+    if second != 0 && second - 1 == n {
+        ops.push(WriteOp::Reject(kind));
+    }
+    let cfg = WriteCfg { records_per_slice: layout, preserve_names: preserve, ..Default::default() };
+    let names: Vec<&str> = env.refs.iter().map(|r| r.name).collect();
+    let shape: String = ops.iter().map(|o| if matches!(o, WriteOp::Accept(_)) { 'a' } else { 'R' }).collect();
+    let describe = || {
+        format!(
+            "one writer, ops [{shape}] (a = records of stream {} in order, R = {}) {} ; accepted records: {}",
+            BASE_STREAMS[which],
+            kind.describe(),
+            cfg.describe(),
+            stream::describe(&st.recs, &names)
+        )
+    };
+    ch.desc(describe);
+    let fpr = |what: &str| format!("op=rejected-record kind={kind:?} {what}");
+    let repo = refs::repository(&env.refs);
+    let header = refs::header(&env.refs);
+    let (outcomes, fin, bytes) = write_cram_ops(&repo, &header, &ops, &cfg);
+    for (k, (op, o)) in ops.iter().zip(outcomes.iter()).enumerate() {
+        match (op, o) {
+            (WriteOp::Reject(_), OpOutcome::Err(m)) => {
+                if m.starts_with("(sam::Record::try_from)") {
+                    ch.tag("refused before the writer (SAM line splitter) - does not exercise the writer");
+                } else {
+                    ch.tag("refused by the writer with Err");
+                }
+            }
+            (WriteOp::Accept(_), OpOutcome::Ok) => {}
+            (WriteOp::Reject(_), OpOutcome::Ok) => {
+                return Err(Violation::new(fpr("symptom=accepted"), describe(), format!("write {k} returns Err"), "Ok(())"));
+            }
+            (WriteOp::Reject(_), OpOutcome::Panic(m)) => {
+                return Err(Violation::new(
+                    fpr(&format!("symptom=panic:{}", vmc::normalise_msg(m.split(" in ").next().unwrap_or(m)))),
+                    describe(),
+                    format!("write {k} returns Err"),
+                    format!("panic: {m}"),
+                ));
+            }
+            (WriteOp::Accept(_), other) => {
+                return Err(Violation::new(
+                    fpr("symptom=later-write-fails"),
+                    describe(),
+                    format!("write {k} (an ordinary record) returns Ok"),
+                    format!("{other:?}"),
+                ));
+            }
+        }
+    }
+    if fin != OpOutcome::Ok {
+        return Err(Violation::new(fpr("symptom=finish-fails"), describe(), "try_finish returns Ok", format!("{fin:?}")));
+    }
+    let recs = &st.recs;
+    let w = match walk::walk(&bytes).and_then(|w| walk::check_against_records(&w, recs, &env.refs).map(|_| w)) {
+        Ok(w) => w,
+        Err(e) => {
+            return Err(Violation::new(
+                fpr(&format!("symptom=walk:{}", e.what.replace(' ', "_"))),
+                describe(),
+                "container invariants hold for exactly the accepted records",
+                e.detail,
+            ));
+        }
+    };
+    let got = match read_cram(&bytes, &repo) {
+        Ok((_, g)) => g,
+        Err((step, f)) => {
+            return Err(Violation::new(fpr(&format!("symptom=read:{}", f.symptom)), describe(), format!("{n} records"), format!("{} (during {step})", f.detail)));
+        }
+    };
+    if got.len() != n {
+        return Err(Violation::new(fpr("symptom=record-count-differs"), describe(), format!("{n} records"), format!("{} records", got.len())));
+    }
+    for (i, (e, o)) in recs.iter().zip(got.iter()).enumerate() {
+        if let Some((col, ev, ov)) = rec::first_diff(e, o, &names, !preserve) {
+            return Err(Violation::new(
+                fpr(&format!("symptom=field-differs:{col}")),
+                describe(),
+                format!("record {i} {col} = {ev}"),
+                format!("record {i} {col} = {ov}"),
+            ));
+        }
+    }
+    ch.steps(ops.len() as u64);
+    ch.obs_hash((&shape, w.containers.len(), w.n_blocks_total, got.iter().map(|r| r.sam_line(&names)).collect::<Vec<_>>()));
+    if w.containers.len() > 1 {
+        ch.tag("several containers");
+    }
+    ch.tag("every refusal was an Err and the file holds exactly the accepted records");
+    Ok(())
+}
+
 fn assignments(nx16: &[u8], aac: &[u8], gz: &[u32]) -> Vec<(Target, Enc)> {
     let mut encs: Vec<Enc> = vec![Enc::None];
     encs.extend(gz.iter().map(|l| Enc::Gzip(*l)));
@@ -427,7 +548,8 @@ fn main() {
              completely, every record field (CIGAR shape, position, reference, placement, bases, qualities, name, strand, flags, MAPQ, \
              tag set, read group) deviates from its base value under the bound k; harness encoders_*: every (target in core / each of \
              the 28 data series / tag blocks / all-same) x encoder of the alphabet, one at a time against the default map, x stream x \
-             layout x preserve_read_names; harness big_blocks: quality-score totals straddling the ITF8 width boundaries (16383/16384, 32767/32768) \
+             layout x preserve_read_names; harness rejected_records: on one writer instance the records of a base stream interleaved with one or two \
+             records the writer must refuse (12 kinds, every insertion point) x layout x preserve_read_names; harness big_blocks: quality-score totals straddling the ITF8 width boundaries (16383/16384, 32767/32768) \
              stored raw, mapped and unplaced; each case is written twice; distinct = distinct (rendered records, container count, block \
              count) logs; transitions = blocks walked",
         );
@@ -456,6 +578,9 @@ fn main() {
             if want("big_blocks") {
                 ctx.harness(Config::new("big_blocks", 0), |ch| body_big_blocks(ch, &env, &[16383, 16384, 20000, 32767, 32768]));
             }
+            if want("rejected_records") {
+                ctx.harness(Config::new("rejected_records", 0), |ch| body_rejects(ch, &env, &[0, 1]));
+            }
             if want("encoders_k0") {
                 let asg = assignments(&q_nx16, &q_aac, &[1, 9]);
                 ctx.harness(Config::new("encoders_k0", 0), |ch| body_encoders(ch, &env, &asg, &[5], &[None], DevSet::NONE));
@@ -472,6 +597,9 @@ fn main() {
             if want("big_blocks") {
                 let totals: Vec<usize> = vec![127, 128, 16383, 16384, 16385, 20000, 32767, 32768, 32769, 40000];
                 ctx.harness(Config::new("big_blocks", 0), |ch| body_big_blocks(ch, &env, &totals));
+            }
+            if want("rejected_records") {
+                ctx.harness(Config::new("rejected_records", 0), |ch| body_rejects(ch, &env, &[0, 1, 2, 3, 5]));
             }
             if want("default_map_k1_all_options") {
                 ctx.harness(Config::new("default_map_k1_all_options", 1), |ch| {
